@@ -91,7 +91,7 @@ pub mod proofs {
             pub fn $name() { fanout_is_count::<$k>() }
         )*};
     }
-    fan_instances!(c09_fanout_0 = 0, c09_fanout_1 = 1, c09_fanout_2 = 2, c09_fanout_3 = 3);
+    fan_instances!(c09_fanout_0 = 0, c09_fanout_1 = 1, c09_fanout_2 = 2);
 
     /// Full-id lookup == linear scan.
     pub fn lookup_full<const K: usize>() {
